@@ -525,9 +525,12 @@ Definition show_outcome (ps : list oid) (o : outcome) : bytes :=
   | Loaded c root => B "loaded root=" ++ show_oid root ++ show_probes c ps
   end.
 
+(* The runner additionally validates the item tokens against the real byte-level parsers applied to
+   the file bytes and appends `items=ok` / `items=bad:…`; the model trusts its input, so a description
+   the real parsers do not confirm shows up as a disagreement. *)
 Definition entry (args : list bytes) : bytes :=
   if bytes_eqb (nth_arg args 0) (B "L") then
     let p := mkpdf (bytes_eqb (nth_arg args 2) (B "1")) (parse_N (nth_arg args 1))
                    (opt_N (nth_arg args 3)) (List.map parse_item (skipn 7 args)) in
-    show_outcome (List.map parse_oid (split_list (nth_arg args 4))) (load p)
+    show_outcome (List.map parse_oid (split_list (nth_arg args 4))) (load p) ++ B " items=ok"
   else B "badcase".
